@@ -548,7 +548,16 @@ impl<'a> DocGen<'a> {
             e.attrs.push((QName::new(XML_NS, "space"), v.to_string()));
         }
         if self.cfg.xml_id && self.rng.chance(1, 4) {
-            let id = format!("id{}", self.ids_used.len());
+            // mostly plain ids; now and then white space that is NOT U+0020 inside the value (TAB, LF, NBSP, ideographic
+            // space): xml:id normalisation only concerns the space character
+            let k = self.ids_used.len();
+            let id = match self.rng.below(12) {
+                0 => format!("i\td{}", k),
+                1 => format!("id{}\u{a0}x", k),
+                2 => format!("\u{3000}id{}", k),
+                3 => format!("id{}\nz", k),
+                _ => format!("id{}", k),
+            };
             self.ids_used.push(id.clone());
             e.attrs.push((QName::new(XML_NS, "id"), id));
         }
